@@ -7,6 +7,7 @@ import RsModel.Lemmas.ReplayLines
 import RsModel.Lemmas.MappedNE
 import RsModel.Lemmas.ReplayMap
 import RsModel.Lemmas.ColdStrip
+import RsModel.Lemmas.WarmTree
 /-!
 # C10 — CachedSource is transparent for every call history
 -/
@@ -281,5 +282,24 @@ streams; `get_map` returns the same map; `source()` is the same text.  (Distinct
 theorem c10_cold_transparent (s : Src) (o : Opts) (σ : Store) (hn : s.ids.Nodup) (hc : Cold σ s.ids) :
     (s.stream o σ).1 = (s.strip.stream o []).1 ∧ (getMap s o σ).1 = (getMap s.strip o []).1 ∧ s.src = s.strip.src ∧ s.strip.NoCached :=
   ⟨Src.stream_strip s o σ hn hc, getMap_strip s o σ hn hc, (Src.strip_src s).symm, Src.strip_nc s⟩
+
+
+/-- **C10, warm caches inside a tree** (columns = true, normal mode): `s` is any tree — leaves, ConcatSource at any nesting,
+ReplaceSource, any number of CachedSource nodes at any depth, also nested in one another — in which no CachedSource sits beneath a
+ReplaceSource (that case is the known finding K5), every cached subtree is in the domain of C02 with ASCII text and mapping values
+below 2³¹ (`Src.WarmHyp`), and distinct CachedSource nodes own distinct caches.  Stream it on cold caches: every CachedSource
+stores the map built from its subtree's stream.  Stream it again with the store the first call left: every outermost CachedSource
+now answers from its entry, replaying its text through the stored map, and nothing beneath it is visited.  The second stream
+delivers the same text and resolves *every byte* — through its own announcements — to the same file name, original line, original
+column and name as the first.  Chain: the store only grows and the first call fills every node's entry with the map of its
+cache-free stream (`Src.stream_fills`, `ColdStrip`) ∘ the second call is the stream of the replay tree (`Src.stream_warm`) ∘ the
+replay of a subtree attributes like the subtree (`replay_names`: C02 ∘ C12 ∘ C08) ∘ ConcatSource composes attributions at name
+level whatever the children's contents (`concatStream_NA`). -/
+theorem c10_warm_tree (s : Src) (σ : Store) (hn : s.ids.Nodup) (hc : Cold σ s.ids) (hk : s.CachedOK) (h : s.WarmHyp) (hw : s.WF) :
+    let first := s.stream ⟨true, false⟩ σ
+    let second := s.stream ⟨true, false⟩ first.2
+    NA second.1.evs = NA first.1.evs ∧ evsText second.1.evs = evsText first.1.evs := by
+  intro first second
+  exact ⟨Src.second_stream_NA s σ hn hc hk h, by rw [Src.stream_text s true _ hw, Src.stream_text s true σ hw]⟩
 
 end Rs
